@@ -208,6 +208,18 @@ class SymNP:
     def zeros(self, shape, dtype=None, **kw):
         return self._filled(shape, 0, dtype)
 
+    def fromiter(self, it, dtype=None, count=-1, **kw):
+        items = []
+        for v in it:
+            if count >= 0 and len(items) >= count:
+                break
+            items.append(v)
+        if 0 <= count != len(items) and count > len(items):
+            raise ValueError(f"iterator too short: Expected {count} but iterator had only {len(items)} items.")
+        if any(is_symbolic(v) for v in items):
+            return A.to_symarray(items)  # like zeros(dtype=int) + item assignment: an array of the engine (the integer width is applied by astype)
+        return _np.fromiter(items, dtype=dtype, count=len(items), **kw)
+
     def ones(self, shape, dtype=None, **kw):
         return self._filled(shape, 1, dtype)
 
